@@ -626,9 +626,16 @@ def check_C03(er, cfg_terms=None):
                         for el in payload(rest[0]['expr'])['elems']:
                             if el is not None:
                                 expected.append(el)
-                        expected.extend(rest[1:])
+                    elif which == 'apply':
+                        expected.extend(rest[:1])
                     else:
                         expected.extend(rest)
+                    if which == 'apply' and len(rest) >= 2 and len(A) > len(expected):
+                        # `f.apply(thisArg, [..], more, ..)`: whatever follows the argument array is evaluated but is NOT an argument
+                        # of the call; a hook that receives it is told about a value the operation never saw
+                        out.append(Violation('C03', 'method-apply/extra-operand:argument-after-the-argument-array', wc, 'hook gets %d operand arguments, the call has %d' % (len(A), len(expected))))
+                        out.extend(compare_operands('method-' + which, A[:len(expected)], expected, cfg_terms, wc))
+                        continue
                     out.extend(compare_operands('method-' + which, A, expected, cfg_terms, wc))
                 continue
             elif kind(callee) == 'Ident':
